@@ -93,3 +93,18 @@ package cmd
 //@   at call ControlPlane).Close#1 assert a0 == oldControlPlane && calls("retireControlPlaneConnections") == 1
 //@   at call RunReloadRetirementCleanup#1 assert a0 == successor && a1 == staleBeforeNs && calls("ControlPlane).Close") == 1
 //@   ensures calls("builtin:close") == 1 && calls("ControlPlane).Close") == 1 && calls("MarkRetired") == 1
+
+// C20 (the drain wait is bounded): unless the old control plane is already idle, a timer for exactly maxWait
+// is armed - for every maxWait, zero and negative included (the wait then ends at once) - and its channel
+// is one of the ways out of the wait loop.
+//@ func waitForControlPlaneDrain
+//@   anchorsonly
+//@   nonilcheck
+//@   dyncalls noeffect
+//@   modifies *
+//@   at call time.NewTimer#1 assert a0 == maxWait
+//@   at call time.NewTicker#1 assert a0 == logEvery && logEvery > 0
+//@   at return 1 assert calls("time.NewTimer") == 0
+//@   at return 2 before-defers assert calls("time.NewTimer") == 1
+//@   at return 3 before-defers assert calls("time.NewTimer") == 1
+//@   at return 4 before-defers assert calls("time.NewTimer") == 1
